@@ -39,3 +39,9 @@ VARIANTS += [
       rule='C05-IEF', key='NOITEM'),
     M('C05', 'refactor-item-through-py_val-guard', E(CP, "    return ColDiff(different, int(different.sum()))", "    n = different.sum()\n    if hasattr(n, 'item'):\n        n = n.item()\n    return ColDiff(different, n)"), kind='refactor'),
 ]
+
+VARIANTS += [
+    M('C05', 'option-forwarded-under-another-name', E(RT, "                check_order=check_order,\n                condition=condition,\n                sortby=sortby,\n                precision=precision,\n                type_matching=type_matching,",
+                                                     "                check_order=check_data,\n                condition=condition,\n                sortby=sortby,\n                precision=precision,\n                type_matching=type_matching,"),
+      rule='C05-FORWARD', key='crossed'),
+]
